@@ -11,6 +11,7 @@ CONSTANTS
   Depth = 4
   EmitPrograms = TRUE
   SampleK = 300
+  MaxBuf = 16
   OrigMinW = 10
   OrigMaxW = 17
   Mutation = "none"
